@@ -9,7 +9,7 @@ HOOK_COMMITS = subprocess.run(
 
 CHECKS = {
  "C01": dict(
-   technique="property-based testing: proptest-generated programs x histories (byte tape -> structured case), from-scratch reference interpreter as oracle, ddmin shrinking",
+   technique="property-based testing: proptest-generated programs x histories (byte tape -> structured case), from-scratch reference interpreter as oracle, ddmin shrinking; thorough tier adds a coverage-guided libFuzzer campaign (cargo-fuzz target fz_c01_engine, ASan, 16 forked workers) over the same decoder and oracle",
    category="exploration",
    text="Generated acyclic query programs (all five execution styles, conditional/data-dependent/concurrent/unordered/spawned reads) and histories of sessions, refreshes, world changes and queries are run on InMemoryStorageEngine and on DbBacked<MockKv> (cache capacity 1..64, generated commit placement and grouping); every value returned to the user and every value an executor receives for a dependency is compared with a from-scratch interpretation of the same program on the committed inputs; all queried nodes are re-queried at the end. Exploration, not proof: absence of a counterexample in the explored cases only.",
    design_ref="DESIGN.md section 3 C01, section 7 (KF1)",
@@ -37,7 +37,7 @@ CHECKS = {
    note="Fault model is the property's own (atomic physical commits, prefix durability). SIGKILL of real backends is not part of the quick tier. KF1 excluded by construction (transitive firewalls of stored nodes are repaired through the public API before querying).",
    engine="E1 + E3 crash images"),
  "C09": dict(
-   technique="model-based property testing: generated op streams over the three cached map kinds on DbBacked<MockKv> with generated commit placement, reference maps as oracle",
+   technique="model-based property testing: generated op streams over the three cached map kinds on DbBacked<MockKv> with generated commit placement, reference maps as oracle; thorough tier adds a coverage-guided libFuzzer campaign (cargo-fuzz target fz_c09_maps, ASan, 16 forked workers) over the same decoder and oracle",
    category="exploration",
    text="Op streams (new batch / write into any open batch / bulk inserts across the 1024 spill threshold / submit in any order / release k physical commits with or without waiting for the cache notifications / get) over CacheSingleMap (two value types in one column), CacheDynamicMap and CacheKeyOfSetMap with cache capacity 1..16 far below the key universe. Every read must equal the reference model of all writes issued so far (negative entries included), at every Get, before the final drain, after it and in a second pass.",
    design_ref="DESIGN.md section 3 C09",
@@ -79,7 +79,7 @@ CHECKS = {
    note="Quick tier: <= 8 values of k per case spread over the measured range; thorough: all k. preempt_point hooks never yield in cancellation mode, so no future is dropped where the real code cannot be suspended. A cancelled set_input/update/refresh may have had no effect or its full effect.",
    engine="E2 single-thread scheduler"),
  "C12": dict(
-   technique="property-based testing over a compile-time type universe: proptest tapes decoded into boundary-biased values of ~930 (+15 with smallvec/bitvec) monomorphised types; round-trip / cursor-position / back-to-back / prefix-freeness oracles; exhaustive enumeration of 8- and 16-bit integers and all varint boundaries",
+   technique="property-based testing over a compile-time type universe: proptest tapes decoded into boundary-biased values of ~930 (+15 with smallvec/bitvec) monomorphised types; round-trip / cursor-position / back-to-back / prefix-freeness oracles; exhaustive enumeration of 8- and 16-bit integers and all varint boundaries; thorough tier adds a coverage-guided libFuzzer campaign (cargo-fuzz target fz_c12_decode, ASan, 16 forked workers) over the same decoder and oracle",
    category="exploration",
    text="Every leaf type, every unary constructor over every leaf, binary constructors over leaf pairs, a fixed sample of depth-2/3 types and derived structs/enums (generic, skipped fields, same name in two modules) are instantiated at compile time; for generated values: decode(encode(v)) equals v (semantic equality: NaNs identified, unordered collections as sets), the decoder's cursor ends exactly where the encoder stopped (trailer appended), two values written back to back are read back in sequence, and no proper prefix of an encoding decodes completely. All u8/i8/u16/i16 values and every 2^(7k)+{-1,0,1}, 2^(8k)+-1, MIN/MAX of wider integers are enumerated. Built and run twice (without and with smallvec+bitvec); a supervisor process isolates aborts (absurd allocations) to a type.",
    design_ref="DESIGN.md section 3 C12",
@@ -100,7 +100,7 @@ CHECKS = {
    note="An accidental 128-bit collision outside the explored set cannot be excluded. Engine-visible aliasing is additionally covered by every C01 run (all query types share every key payload).",
    engine="E5/E6 type universe"),
  "C11": dict(
-   technique="model-based (stateful) property testing: generated batch/commit/drop/reopen histories over a typed column zoo run against MockKv, RocksDB and Fjall, typed reference maps as oracle, full read-back after every step",
+   technique="model-based (stateful) property testing: generated batch/commit/drop/reopen histories over a typed column zoo run against MockKv, RocksDB and Fjall, typed reference maps as oracle, full read-back after every step; thorough tier adds a coverage-guided libFuzzer campaign (cargo-fuzz target fz_c11_mock, ASan, 16 forked workers) over the same decoder and oracle",
    category="exploration",
    text="Histories over 13 wide columns (keys (), u8, u64, String, Vec<u8>, (u8,Vec<u8>), Option<Vec<u8>>, Vec<Vec<u8>>, Compact128; prefixed and suffixed discriminants; discriminant types u8, (), (StableTypeID, enum); two value types per key) and 5 key-of-set columns ((), QueryID, strings, byte strings), with keys and elements drawn to be prefixes/extensions of one another, empty, 0xFF/0x00-heavy, length-prefix look-alikes and 4 KiB long. Batches are built directly or through a serialization buffer, committed or dropped; the store is reopened (all handles dropped, same directory / same Store). After every step every touched (column, key, value type) and every touched set key is read back: a point read must return the last committed value of exactly that key, a scan exactly the committed members of exactly that key with no duplicates; uncommitted batches must be invisible; content must survive reopen. Run on MockKv (vcheck) and on real RocksDB and Fjall databases in scratch directories (vbackends).",
    design_ref="DESIGN.md section 3 C11",
@@ -114,7 +114,7 @@ CHECKS = {
    note="Thread plans sample the OS scheduler except at the one parked hook point; the oracle is interleaving independent.",
    engine="E9 interner/LFU harness"),
  "C16": dict(
-   technique="model-based property testing: generated op streams on TinyLFU with a pin-aware reference map and a residency bound; generated multi-task lock plans on the engine's query lock table with in-critical-section witness counters",
+   technique="model-based property testing: generated op streams on TinyLFU with a pin-aware reference map and a residency bound; generated multi-task lock plans on the engine's query lock table with in-critical-section witness counters; thorough tier adds a coverage-guided libFuzzer campaign (cargo-fuzz target fz_c16_lfu, ASan, 16 forked workers) over the same decoder and oracle",
    category="exploration",
    text="Op streams of 50..950 (thorough 3000) operations on TinyLFU<u16, value, listener> for capacities {1,2,3,8,33,100,300}, both unpin strategies and both maintenance modes, key universe 4x..20x capacity with skewed popularity: get / insert-if-vacant / upsert / remove / pin / unpin (+ notification) / touch. Oracle: a get returns the latest version or None, None only for keys that are not pinned, never a removed version; a pinned key is always resident with its latest value; resident entries stay within capacity + pinned + the documented maintenance slack (judged only in piggy-back maintenance mode, where maintenance is deterministic). Lock-table runs: the engine's query lock manager (through the verif_hooks wrapper) with capacity 1..8, 2..16 tasks on an 8-worker runtime taking shared/exclusive locks on 2..64 ids; witness counters inside the critical section detect two holders of an exclusive lock or a reader beside a writer.",
    design_ref="DESIGN.md section 3 C16",
@@ -165,6 +165,7 @@ def main():
             {"name": "E5 type universe", "path": "harness/vtypes/src/main.rs", "serves_properties": ["C12", "C13", "C14"], "kind_free_text": "macro-generated monomorphised type list with value generators, recording hasher, term mirror; supervisor/worker process isolation"},
             {"name": "E8 backend model", "path": "harness/vcore/src/ck_backend.rs", "serves_properties": ["C11"], "kind_free_text": "history interpreter generic over KvDatabase with typed reference maps; harness/vbackends runs it on RocksDB and Fjall"},
             {"name": "E9 interner/LFU harness", "path": "harness/vcore/src/ck_intern.rs", "serves_properties": ["C15", "C16"], "kind_free_text": "OS-thread plans with witness tables (ck_intern.rs), op streams with reference map (ck_lfu.rs)"},
+            {"name": "E10 libFuzzer targets", "path": "harness/fuzz/fuzz_targets", "serves_properties": ["C01", "C09", "C11", "C12", "C16"], "kind_free_text": "cargo-fuzz (nightly, ASan) wrappers around the byte -> case decoders and oracles of vcore; run by tools/fuzz_campaign.sh in the thorough tier, crash artefacts become replay files"},
             {"name": "E4 storage model harness", "path": "harness/vcore/src/ck_storage.rs", "serves_properties": ["C09", "C10"], "kind_free_text": "op-stream interpreters over the public storage types with reference models"},
             {"name": "E3 MockKv", "path": "harness/vcore/src/mockkv.rs", "serves_properties": ["C01", "C03", "C07", "C08", "C09", "C10", "C11"], "kind_free_text": "scripted logging KvDatabase with commit gate, grouping policy, prefix re-materialisation"},
         ],
